@@ -334,7 +334,7 @@ def registry():
     return sorted({c.__name__ for c in subs(Operation) if not inspect.isabstract(c) and not c.__name__.startswith("_")})
 
 
-N = {"quick": 550, "thorough": 9000}
+N = {"quick": 550, "thorough": 5000}
 NCONV = {"quick": 200, "thorough": 3000}
 
 
